@@ -173,6 +173,11 @@ func (sp *stakePool) addOffer(amount currency.Coin) error {
 
 // add offer of an allocation related to blobber owns this stake pool
 func (sp *stakePool) reduceOffer(amount currency.Coin) error {
+	if sp.HasBeenKilled && amount > sp.TotalOffers {
+		// repeating kill / shutdown on a dead provider clears its offers while allocations still list
+		// theirs; releasing such an offer must not fail, or the allocation could never be closed
+		amount = sp.TotalOffers
+	}
 	newTotalOffers, err := currency.MinusCoin(sp.TotalOffers, amount)
 	if err != nil {
 		return err
